@@ -31,6 +31,7 @@ pub enum Kind {
     Update,
     TryUpdate,
     Snapshot,
+    BadUpdate,
 }
 
 #[derive(Clone, Copy, Debug)]
@@ -55,6 +56,10 @@ pub enum PlanOp {
     Update(u64),
     TryUpdate(u64),
     Snapshot,
+    /// update() with a voucher for another value: the crate asserts and
+    /// panics while holding the writer lock, which poisons it.  The pair
+    /// must never become visible and every later call must keep working.
+    BadUpdate(u64),
 }
 
 pub struct ThreadPlan {
@@ -74,6 +79,11 @@ fn fail(sig: &str, what: String) -> Fail {
 /// increasing bases (a share deliberately below the thread's own maximum),
 /// a share via try_update, and snapshot in between; readers only snapshot.
 pub fn make_plans(rng: &mut Rng, writers: usize, k: usize, readers: usize, m: usize) -> Vec<ThreadPlan> {
+    make_plans_poison(rng, writers, k, readers, m, 0)
+}
+
+/// `poison_permille`: chance per writer operation of an extra BadUpdate.
+pub fn make_plans_poison(rng: &mut Rng, writers: usize, k: usize, readers: usize, m: usize, poison_permille: u64) -> Vec<ThreadPlan> {
     let mut plans = Vec::new();
     for w in 0..writers {
         let mut ops = Vec::new();
@@ -93,6 +103,10 @@ pub fn make_plans(rng: &mut Rng, writers: usize, k: usize, readers: usize, m: us
             if !stale {
                 own_max = base;
                 stale_count = 0;
+            }
+            if poison_permille > 0 && rng.below(1000) < poison_permille {
+                // unique and far above every real base: if it ever became visible it would stick
+                ops.push(PlanOp::BadUpdate(1_000_000_000 + fresh));
             }
             ops.push(if rng.chance(1, 3) { PlanOp::TryUpdate(base) } else { PlanOp::Update(base) });
             if rng.chance(1, 2) {
@@ -231,6 +245,14 @@ pub fn run_threads(plans: Vec<ThreadPlan>, stress: Option<(u64, u64)>) -> Result
                         let end = tick();
                         log.push(Rec { kind: Kind::Update, base: b, bits: voucher_bits(v), ok: true, begin, end, loads: loads() });
                     }
+                    PlanOp::BadUpdate(b) => {
+                        let wrong = CRATE_PARAMS.vouch(b.wrapping_add(1));
+                        let begin = tick();
+                        let r = std::panic::catch_unwind(std::panic::AssertUnwindSafe(|| abt.update((b, wrong))));
+                        let end = tick();
+                        // ok == true would mean the crate accepted a pair whose voucher does not match
+                        log.push(Rec { kind: Kind::BadUpdate, base: b, bits: voucher_bits(wrong), ok: r.is_ok(), begin, end, loads: 0 });
+                    }
                     PlanOp::TryUpdate(b) => {
                         let v = CRATE_PARAMS.vouch(b);
                         let begin = tick();
@@ -293,6 +315,7 @@ pub struct OracleStats {
     pub stale_updates: u64,
     pub saw_initial: u64,
     pub saw_foreign: u64,
+    pub poisonings: u64,
 }
 
 /// The log checker: untorn, membership, never-observable, monotone, recent, final.
@@ -307,6 +330,14 @@ pub fn check_logs(out: &RunOut, timed: bool, st: &mut OracleStats) -> Result<(),
         for r in log {
             match r.kind {
                 Kind::Snapshot => {}
+                Kind::BadUpdate => {
+                    if r.ok {
+                        return Err(fail("bad-voucher-accepted", format!("thread {} update({}) with a voucher for another value did not panic", ti, r.base)));
+                    }
+                    passed.push((r.base, ti));
+                    never.push(r.base);
+                    st.poisonings += 1;
+                }
                 Kind::Update | Kind::TryUpdate => {
                     passed.push((r.base, ti));
                     if r.kind == Kind::TryUpdate && !r.ok {
@@ -352,6 +383,7 @@ pub fn check_logs(out: &RunOut, timed: bool, st: &mut OracleStats) -> Result<(),
         let mut own_floor = 0u64;
         for (i, r) in log.iter().enumerate() {
             match r.kind {
+                Kind::BadUpdate => {}
                 Kind::Update => own_floor = own_floor.max(r.base),
                 Kind::TryUpdate => {
                     if r.ok {
@@ -406,7 +438,7 @@ pub fn check_logs(out: &RunOut, timed: bool, st: &mut OracleStats) -> Result<(),
                             .logs
                             .iter()
                             .flatten()
-                            .filter(|u| u.kind != Kind::Snapshot && (u.kind == Kind::Update || u.ok) && u.end > r.begin && u.end < r.end)
+                            .filter(|u| (u.kind == Kind::Update || (u.kind == Kind::TryUpdate && u.ok)) && u.end > r.begin && u.end < r.end)
                             .count();
                         if during >= 1 {
                             st.overlapped_1 += 1;
@@ -486,7 +518,8 @@ pub fn run(ctx: &mut Ctx) {
                 continue;
             }
             let mut rng = Rng::for_case(ctx.args.seed, "abt-plain", round);
-            let plans = make_plans(&mut rng, w, k, r, m);
+            let poison = ctx.args.get_u64("poison", 0);
+            let plans = make_plans_poison(&mut rng, w, k, r, m, poison);
             ctx.begin_case(idx, || Json::obj().with("kind", Json::s("abt-plain")).with("index", Json::U(idx)));
             let out = match run_threads(plans, None) {
                 Ok(o) => o,
@@ -532,7 +565,8 @@ pub fn run(ctx: &mut Ctx) {
             continue;
         }
         let mut rng = Rng::for_case(ctx.args.seed, "abt-stress", run_i);
-        let plans = make_plans(&mut rng, w, k, r, m);
+        let poison = if rng.chance(1, 5) { 60 } else { 0 };
+        let plans = make_plans_poison(&mut rng, w, k, r, m, poison);
         let permille = *rng.pick(&[0u64, 50, 200, 500, 900]);
         let seed = rng.next_u64();
         let case = || Json::obj().with("kind", Json::s("abt-stress")).with("index", Json::U(idx)).with("delay_permille", Json::U(permille)).with("threads", Json::U((w + r) as u64));
@@ -572,4 +606,5 @@ fn record(ctx: &mut Ctx, st: &OracleStats) {
     ctx.feature_n("abt.stale_updates_issued", st.stale_updates);
     ctx.feature_n("abt.snapshots_of_initial_pair", st.saw_initial);
     ctx.feature_n("abt.snapshots_of_another_threads_update", st.saw_foreign);
+    ctx.feature_n("abt.writer_lock_poisoned_by_panicking_update", st.poisonings);
 }
